@@ -24,6 +24,11 @@ strings = st.lists(st.sampled_from(SPECIAL) | st.text(alphabet=st.characters(min
 floats = st.floats(allow_nan=False, allow_infinity=False, width=64) | st.sampled_from([0.0, -0.0, 1.5, 1e-10, 123456.789, 1e300, -2.5e-7])
 
 
+# annotation bodies (no body has both a newline and an end-of-comment marker: such an annotation has no text form)
+COMMENT_BODIES = [" note", "x", " a */ b", " two\n lines ", "a\nb\nc", "\n", " t\n\tindented\n  more", "#", "//", "/* x", "\"q\"", "${HOME}",
+                  " trailing \n", "  lead", "a\r\nb"]
+
+
 def trees_equal(a, b, path=""):
     """same sections, titles, list lengths and values (floats to the printed precision)"""
     if (a is None) != (b is None):
@@ -84,12 +89,14 @@ class C05:
             "MULTI|TITLE, KEYSTRVAL) x states produced by random accepted texts and/or random setter sequences (typed "
             "setters at indices, setlist/addlist, setmulti, addtsec with arbitrary titles, setters inside the new sections), "
             "strings and titles over all bytes 1..255 weighted towards quotes, backslash, $, {, }, comment markers, newlines; "
-            "finite floats; CFGF_COMMENTS on and off. Oracle: P1=print(ctx) is accepted by a fresh context of the same "
+            "finite floats; CFGF_COMMENTS on and off, with annotations (one-line and multi-line) from comments placed anywhere "
+            "between tokens and from cfg_setcomment on top-level and nested options. Oracle: P1=print(ctx) is accepted by a fresh context of the same "
             "schema, trees equal (floats to printed precision), P2=print(fresh) == P1 when COMMENTS is off, and "
             "print(parse(P2)) == P2 always. Non-trivial = a string/title with a byte outside [A-Za-z0-9_], a nested "
             "section or an emptied/unset option; distinct = distinct printed texts")
     assumptions = ["states with a string option explicitly set to NULL and removed default-created single sections are not "
-                   "generated (no text form exists for them)", "NaN and infinities are not generated"]
+                   "generated (no text form exists for them)", "NaN and infinities are not generated",
+                   "an annotation set through the API that contains both a newline and `*/` has no text form and is not generated"]
 
     def check_case(self, case, get_ex):
         schema = HAND[case["schema"]] if isinstance(case["schema"], str) else case["schema"]
@@ -167,8 +174,24 @@ class C05:
                             toks[0][1] = " plain "
                         if toks[0][2] == "hash":
                             toks[0][1] = toks[0][1].replace("\n", " ")
+                    if flags & F_COMMENTS:
+                        # comments anywhere between tokens: in front of a nested item they become its annotation
+                        for _c in range(draw(st.integers(0, 3))):
+                            pos = draw(st.integers(0, len(toks)))
+                            body = draw(st.sampled_from(COMMENT_BODIES))
+                            style = draw(st.sampled_from(["hash", "block", "block"]))
+                            if style == "hash":
+                                body = body.replace("\n", " ")
+                            elif "*/" in body:
+                                body = " plain "
+                            toks = toks[:pos] + [["w", "\n"], ["c", body, style], ["w", "\n"]] + toks[pos:]
                     ops.append(["parse", toks])
                     handles.clear()      # a parse may replace titled sections: pointers to them are stale afterwards
+                    continue
+                if k == 9 and flags & F_COMMENTS and oo and draw(st.booleans()):
+                    # annotation through the API, on top-level options and on options of sections made by addtsec
+                    o = draw(st.sampled_from(oo))
+                    ops.append(["setcomment", h, hx(o["n"]), hx(draw(st.sampled_from(COMMENT_BODIES)))])
                     continue
                 secs = [o for o in oo if o["k"] == "sec" and (o["f"] & F_MULTI) and (o["f"] & F_TITLE)]
                 if k == 1 and secs:
